@@ -329,6 +329,14 @@ VARIANTS["C03"] = [
     V("subset-range-count", "fire", NP, [("            meta_shank[\"snsSaveChanSubset\"] = f\"0:{n_chns-1}\"\n            meta_shank[\"original_meta\"] = False\n            meta_shank[f\"{self.np_version}_shank\"]",
                                           "            meta_shank[\"snsSaveChanSubset\"] = f\"0:{n_chns}\"\n            meta_shank[\"original_meta\"] = False\n            meta_shank[f\"{self.np_version}_shank\"]")], ("D6",), ""),
     V("twin-subset-parser-stop-var", "twin", NP, [("                chns = np.arange(int(sub[0]), int(sub[1]) + 1)\n", "                chns = np.arange(int(sub[0]), 1 + int(sub[1]), 1)\n")], (), ""),
+    V("split-equal-width-blocks", "fire", NP, [(
+        "        for sh in self.shank_info.keys():\n            open = self.shank_info[sh][f\"{etype}_open_file\"]\n            (chunk[:, self.shank_info[sh][\"chns\"]]).tofile(open)\n",
+        "        shanks = list(self.shank_info.values())\n        frame = chunk[:, np.concatenate([shank[\"chns\"] for shank in shanks])]\n        for shank, block in zip(shanks, np.split(frame, len(shanks), axis=1)):\n            np.ascontiguousarray(block).tofile(shank[f\"{etype}_open_file\"])\n")],
+      ("D3",), "one gather, equal-width blocks: wrong columns when shanks have different channel counts"),
+    V("twin-split-cumulative-widths", "twin", NP, [(
+        "        for sh in self.shank_info.keys():\n            open = self.shank_info[sh][f\"{etype}_open_file\"]\n            (chunk[:, self.shank_info[sh][\"chns\"]]).tofile(open)\n",
+        "        shanks = list(self.shank_info.values())\n        frame = chunk[:, np.concatenate([shank[\"chns\"] for shank in shanks])]\n        cuts = np.cumsum([len(shank[\"chns\"]) for shank in shanks])[:-1]\n        for shank, block in zip(shanks, np.split(frame, cuts, axis=1)):\n            np.ascontiguousarray(block).tofile(shank[f\"{etype}_open_file\"])\n")],
+      (), "one gather, blocks cut at the cumulative channel counts"),
     V("twin-rint", "twin", NP, [("        chunk2save = np.round(\n            np.c_[", "        chunk2save = np.rint(\n            np.c_[")], (), ""),
     V("twin-taper-expr", "twin", NP, [("        self.samples_taper = int(self.samples_overlap / 4)\n", "        self.samples_taper = self.samples_overlap // 4\n")], (), ""),
 ]
